@@ -2324,7 +2324,11 @@ pub(crate) mod convert {
                 .next()
                 .ok_or(read::Error::MissingSplitUnit)?;
 
-            let offsets = filter.deps.get_reachable();
+            // Only reserve entries of the unit that is converted. The filter may have read
+            // further units of the section; a reference to one of their entries must be a
+            // conversion error (as it is for `convert_split`), not an id that is never added.
+            let mut offsets = filter.deps.get_reachable();
+            offsets.retain(|offset| offset.to_unit_offset(&split_unit).is_some());
 
             Self::new_with_offsets(skeleton, filter.dwarf, split_unit, offsets)
         }
